@@ -425,3 +425,74 @@ Theorem ou_semigroup sigma e1 e2 a1 a2 :
 Proof.
   intros H1 H2. transitivity (e2 * e2 * (a1 * a1) + a2 * a2); [ring|]. rewrite H1, H2. ring.
 Qed.
+
+(* ------------------------------------------------------------------ 2-D state: linear response *)
+Lemma pair_eq (a b c d : Qc) : a = c -> b = d -> (a, b) = (c, d).
+Proof. intros; subst; reflexivity. Qed.
+
+Ltac pr := unfold vadd2, mv; cbn [fst snd]; apply pair_eq; ring.
+
+Lemma apply_cols_app c1 c2 e1 e2 :
+  length c1 = length e1 -> apply_cols (c1 ++ c2) (e1 ++ e2) = vadd2 (apply_cols c1 e1) (apply_cols c2 e2).
+Proof.
+  revert e1. induction c1 as [|c c1 IH]; intros [|x e1] H; cbn [app apply_cols length] in *; try lia.
+  - destruct (apply_cols c2 e2). pr.
+  - rewrite IH by lia. destruct (apply_cols c1 e1), (apply_cols c2 e2). pr.
+Qed.
+
+Lemma apply_cols_nil_r cols : apply_cols cols [] = (0, 0).
+Proof. destruct cols; reflexivity. Qed.
+
+Lemma apply_cols_prefix cols pre rest : length cols = length pre -> apply_cols cols (pre ++ rest) = apply_cols cols pre.
+Proof.
+  intros H. rewrite <- (app_nil_r cols) at 1. rewrite apply_cols_app by assumption.
+  cbn [apply_cols]. destruct (apply_cols cols pre). pr.
+Qed.
+
+Lemma apply_cols_map F cols e : apply_cols (map (mv F) cols) e = mv F (apply_cols cols e).
+Proof.
+  revert e. induction cols as [|c cols IH]; intros [|x e]; cbn [map apply_cols]; try pr.
+  rewrite IH. destruct (apply_cols cols e), c. pr.
+Qed.
+
+Lemma apply_cols_G G (x : Qc * Qc) :
+  apply_cols [(fst (fst G), fst (snd G)); (snd (fst G), snd (snd G))] [fst x; snd x] = mv G x.
+Proof. destruct G as [[a b] [c d]], x as [u v]. cbn [apply_cols]. pr. Qed.
+
+Lemma vadd2_comm u v : vadd2 u v = vadd2 v u.
+Proof. destruct u, v. pr. Qed.
+
+(* the recursion x_{k+1} = F_k x_k + G_k xi_k is, step by step, the response columns applied to the
+   excitations (x0 components first, then xi_00, xi_01, xi_10, ...) *)
+Theorem state_linear Fs : forall cols pre Gs xis,
+  length cols = length pre -> length Gs = length Fs -> length xis = length Fs ->
+  lrec2 (apply_cols cols pre) Fs (map2 mv Gs xis) =
+  map (fun c => apply_cols c (pre ++ flat_xi xis)) (iwp_cols cols Fs Gs).
+Proof.
+  induction Fs as [|F Fs IH]; intros cols pre [|G Gs] [|x xis] H1 H2 H3; simpl in *; try lia.
+  - rewrite app_nil_r. reflexivity.
+  - rewrite apply_cols_prefix by assumption. f_equal.
+    replace (pre ++ fst x :: snd x :: flat_xi xis) with ((pre ++ [fst x; snd x]) ++ flat_xi xis)
+      by (rewrite <- app_assoc; reflexivity).
+    unfold lrec2 in IH. rewrite <- IH; try lia.
+    + f_equal. unfold cols_step. rewrite apply_cols_app by (rewrite map_length; assumption).
+      rewrite apply_cols_map, apply_cols_G. apply vadd2_comm.
+    + unfold cols_step. rewrite !app_length, map_length. simpl. lia.
+Qed.
+
+Lemma apply_unit x0 : apply_cols [(1, 0); (0, 1)] [fst x0; snd x0] = x0.
+Proof. destruct x0. cbn [apply_cols]. pr. Qed.
+
+(* in particular for the integrated Wiener process as coded *)
+Theorem iwp_linear xi x0 sigma s dt r :
+  length sigma = length xi -> length s = length xi -> length dt = length xi -> length r = length xi ->
+  iwp xi x0 sigma s dt r =
+  map (fun c => apply_cols c ([fst x0; snd x0] ++ flat_xi xi))
+      (iwp_cols [(1, 0); (0, 1)] (map iwp_drift dt) (iwp_amps sigma s dt r)).
+Proof.
+  intros H1 H2 H3 H4. rewrite iwp_is_recursion by assumption. rewrite map2_combine4 by assumption.
+  fold (iwp_amps sigma s dt r). rewrite <- (apply_unit x0) at 1.
+  apply state_linear; [reflexivity | |].
+  - unfold iwp_amps. rewrite !map_length, !combine_length. lia.
+  - rewrite map_length. lia.
+Qed.
